@@ -23,7 +23,8 @@ TReset == /\ Is("Init") /\ IReset(Ev.src, Ev.pipe, Ev.unord)
           /\ pulled0' = Ev.pulled0 /\ lazyCheck' = Ev.lazy
           \* construction may consume what Drop stages skip and what eager stages need, plus look-ahead
           /\ \/ \E i \in DOMAIN Ev.pipe : EagerStage(Ev.pipe[i])
-             \/ Ev.pulled0 <= MaxOf(BuildNeed(Ev.pipe, Ev.src) + Ev.slack0, Need(Ev.pipe, Ev.src, Buffered(Ev.pipe))) + 2 * Len(Ev.pipe)
+             \/ Ev.pulled0 <= MaxOf(MaxOf(BuildNeed(Ev.pipe, Ev.src) + Ev.slack0, Need(Ev.pipe, Ev.src, Buffered(Ev.pipe))),
+                                     BufNeed(Ev.pipe, Ev.src, Buffered(Ev.pipe))) + 2 * Len(Ev.pipe)
           /\ Adv
 
 PullOK(pulled, dem) ==
